@@ -123,11 +123,16 @@ func describe(pc poolCase, avail []int) string {
 
 func genRemote(t *rapid.T) net.Addr {
 	port := rapid.IntRange(1, 65535).Draw(t, "port")
-	switch rapid.IntRange(0, 2).Draw(t, "addrKind") {
+	switch rapid.IntRange(0, 4).Draw(t, "addrKind") {
 	case 0:
 		return &net.TCPAddr{IP: net.IPv4(10, byte(rapid.IntRange(0, 3).Draw(t, "ipb")), 0, byte(rapid.IntRange(1, 9).Draw(t, "ipd"))), Port: port}
 	case 1:
 		return &net.TCPAddr{IP: net.ParseIP(fmt.Sprintf("2001:db8::%x", rapid.IntRange(1, 999).Draw(t, "ip6"))), Port: port}
+	case 2:
+		// a UDP client (layer4's virtual UDP connections report *net.UDPAddr)
+		return &net.UDPAddr{IP: net.IPv4(10, byte(rapid.IntRange(0, 3).Draw(t, "uipb")), 0, byte(rapid.IntRange(1, 9).Draw(t, "uipd"))), Port: port}
+	case 3:
+		return &net.UDPAddr{IP: net.ParseIP(fmt.Sprintf("2001:db8::%x", rapid.IntRange(1, 999).Draw(t, "uip6"))), Port: port}
 	default:
 		return &net.UnixAddr{Net: "unix", Name: "/tmp/sock"} // no port at all
 	}
@@ -284,8 +289,11 @@ func checkPool(t hx.TB, pc poolCase, remote net.Addr, class string) {
 }
 
 func otherPort(a net.Addr) net.Addr {
-	if t, ok := a.(*net.TCPAddr); ok {
+	switch t := a.(type) {
+	case *net.TCPAddr:
 		return &net.TCPAddr{IP: t.IP, Port: t.Port%65535 + 1}
+	case *net.UDPAddr:
+		return &net.UDPAddr{IP: t.IP, Port: t.Port%65535 + 1}
 	}
 	return nil
 }
